@@ -396,6 +396,24 @@ def step(run, op):
             if set(obj.rdm_descriptors) - set(other.rdm_descriptors):
                 ctx.count('rejected_append_descriptor_mismatch')   # documented precondition (assert) of append
                 return True
+            if rng.integers(4) == 0:
+                # the precondition itself: an object lacking one of the receiver's rdm descriptors is refused, and the
+                # receiver keeps every RDM and descriptor value (nothing is silently dropped)
+                lacking = other.copy()
+                drop = gen.pick(rng, [k for k in lacking.rdm_descriptors if k != 'index'])
+                del lacking.rdm_descriptors[drop]
+                fb = fingerprint(obj)
+                try:
+                    obj.append(lacking)
+                    refused = False
+                except Exception:  # noqa
+                    refused = True
+                ctx.case('append', dict(sig, arg='lacking_descriptor'))
+                if not refused or fingerprint(obj) != fb:
+                    ctx.fail(op, dict(sig, what='inconsistent_append_accepted', arg='lacking_descriptor'), f'append of an '
+                             f'object without the rdm descriptor {drop!r} was ' + ('accepted' if not refused else 'refused '
+                             'but altered the receiver') + f': receiver descriptors now {sorted(obj.rdm_descriptors)}', hist())
+                    return False
             obj.append(other)
             sh.rows = sh.rows + [(r, a) for r, a in sh2.rows]
             touched = (k,)
